@@ -439,13 +439,19 @@ var mergePredMode = []ast.ArgMode{ast.ArgModeInput, ast.ArgModeInput, ast.ArgMod
 
 // mergeDelta updates e.store with facts from e.deltaStore.
 // For facts with custom lattice join operations, replaces facts instead of adding.
-func (e *engine) mergeDelta() error {
+// mergeDelta merges the facts of the delta store into the store. It reports
+// whether that changed the store: a fact of a predicate with a merge
+// declaration may be absorbed by the fact that is already stored.
+func (e *engine) mergeDelta() (bool, error) {
+	changed := false
 	err := factstore.GetAllFacts(e.deltaStore, func(fact ast.Atom) error {
 		pred := fact.Predicate
 		fundep, mergePred, ok := e.hasMergePredicate(pred)
 		if !ok {
 			// Default case: just add the new fact.
-			e.store.Add(fact)
+			if e.store.Add(fact) {
+				changed = true
+			}
 			return nil
 		}
 
@@ -498,6 +504,7 @@ func (e *engine) mergeDelta() error {
 					}
 					e.store.Add(fact)
 					e.replacedFacts++
+					changed = true
 					return errBreak
 				}
 				return nil
@@ -508,8 +515,8 @@ func (e *engine) mergeDelta() error {
 			if err != nil && err != errBreak {
 				return err
 			}
-			if !merged {
-				e.store.Add(fact) // fact and existingFact are incomparable.
+			if !merged && e.store.Add(fact) { // fact and existingFact are incomparable.
+				changed = true
 			}
 			return nil
 		}
@@ -518,20 +525,20 @@ func (e *engine) mergeDelta() error {
 				break
 			}
 		}
-		if !existing {
-			e.store.Add(fact)
+		if !existing && e.store.Add(fact) {
+			changed = true
 		}
 		return nil
 	})
 	if err != nil {
-		return err
+		return changed, err
 	}
 	// An ascending chain of merged values creates a new fact in every round
 	// without growing the store.
 	if e.options.createdFactLimit > 0 && e.replacedFacts > e.options.createdFactLimit {
-		return fmt.Errorf("fact size limit reached: %d facts replaced by merging > %d", e.replacedFacts, e.options.createdFactLimit)
+		return changed, fmt.Errorf("fact size limit reached: %d facts replaced by merging > %d", e.replacedFacts, e.options.createdFactLimit)
 	}
-	return nil
+	return changed, nil
 }
 
 func (e *engine) eval() error {
@@ -583,7 +590,7 @@ func (e *engine) eval() error {
 		for _, pred := range deltaRulePreds {
 			deltaRules = append(deltaRules, deltaRuleMap[pred]...)
 		}
-		if err := e.mergeDelta(); err != nil {
+		if _, err := e.mergeDelta(); err != nil {
 			return err
 		}
 		for {
@@ -593,7 +600,7 @@ func (e *engine) eval() error {
 			if e.temporalStore != nil {
 				newTemporalDeltaStore = factstore.NewTemporalStore()
 			}
-			var incrementalFactAdded bool
+			var incrementalFactAdded, temporalFactAdded bool
 			for _, deltaRule := range deltaRules {
 				if !predicateAllowList(deltaRule.Head.Predicate) {
 					continue
@@ -614,6 +621,7 @@ func (e *engine) eval() error {
 									return err
 								}
 								incrementalFactAdded = true
+								temporalFactAdded = true
 							}
 						}
 					} else {
@@ -631,13 +639,19 @@ func (e *engine) eval() error {
 			// that delta rules can join them with each other.
 			e.deltaStore = newDeltaStore
 			e.temporalDeltaStore = newTemporalDeltaStore
-			if err := e.mergeDelta(); err != nil {
+			storeChanged, err := e.mergeDelta()
+			if err != nil {
 				return err
 			}
 			if e.options.totalFactLimit > 0 && e.store.EstimateFactCount() > e.options.totalFactLimit {
 				return fmt.Errorf("fact size limit reached %d > %d", e.store.EstimateFactCount(), e.options.totalFactLimit)
 			}
 			if !incrementalFactAdded {
+				break
+			}
+			if !storeChanged && !temporalFactAdded {
+				// Every fact of this round was absorbed by a merge: the store is
+				// what it was, so another round would derive the same facts again.
 				break
 			}
 		}
